@@ -96,7 +96,9 @@ theorem withdraw_reject {o : Ops α} {cx : NumCtx} {cfg : Config α} {ps : Pool 
     · cases h; rfl
     · split at h
       · cases h; rfl
-      · cases h
+      · split at h
+        · cases h; rfl
+        · cases h
 end
 
 end Demeter.Gmx2
